@@ -150,7 +150,43 @@ fn amp_ok(s: &str) -> bool {
 }
 
 fn unescape(s: &str) -> String {
-    s.replace("&lt;", "<").replace("&gt;", ">").replace("&quot;", "\"").replace("&apos;", "'").replace("&nbsp;", "\u{a0}").replace("&#13;", "\r").replace("&#9;", "\t").replace("&#10;", "\n").replace("&amp;", "&")
+    // named references the HTML / XML serialisers may use, and any numeric character reference
+    let mut out = String::new();
+    let mut rest = s;
+    while let Some(p) = rest.find('&') {
+        out.push_str(&rest[..p]);
+        let after = &rest[p + 1..];
+        let Some(semi) = after.find(';') else {
+            out.push('&');
+            rest = after;
+            continue;
+        };
+        let body = &after[..semi];
+        let rep: Option<char> = match body {
+            "lt" => Some('<'),
+            "gt" => Some('>'),
+            "amp" => Some('&'),
+            "quot" => Some('"'),
+            "apos" => Some('\''),
+            "nbsp" => Some('\u{a0}'),
+            _ => body.strip_prefix('#').and_then(|n| match n.strip_prefix('x').or_else(|| n.strip_prefix('X')) {
+                Some(h) => u32::from_str_radix(h, 16).ok(),
+                None => n.parse::<u32>().ok(),
+            }).and_then(char::from_u32),
+        };
+        match rep {
+            Some(c) => {
+                out.push(c);
+                rest = &after[semi + 1..];
+            }
+            None => {
+                out.push('&');
+                rest = after;
+            }
+        }
+    }
+    out.push_str(rest);
+    out
 }
 
 const VOID: [&str; 14] = ["area", "base", "br", "col", "embed", "hr", "img", "input", "link", "meta", "param", "source", "track", "wbr"];
